@@ -903,6 +903,18 @@ def catalogue():
     cs.append(("KS1", T("IA5String", size=Cons("size", [(1, 1), (4, 4)]), alpha=Cons("from", [(0x41, 0x43), (0x58, 0x5a)]))))
     cs.append(("KS2", T("SEQOF", elem=T("BOOLEAN"), size=Cons("size", [(0, 1), (3, 3)]))))
     mods.append(Module("CatCons", "AUTOMATIC", cs))
+    # 7. a small module for the option-set comparison (C13): native/wide integer shapes, CHOICE order, defaults
+    os_ = [("O%d" % j, T("INTEGER", cons=Cons("value", [r]))) for j, r in enumerate(
+        [(0, None), (1, None), (None, 0), (-1, None), (0, 255), (0, 65535), (0, 4294967295), (-128, 127), (0, I64_MAX), (256, None)])]
+    os_.append(("O20", T("INTEGER")))
+    os_.append(("O21", T("ENUMERATED", named=[("a", 0), ("b", 5)], ext=True, ext_named=[("c", 9)])))
+    os_.append(("O22", T("CHOICE", members=[Member("zone", T("NULL", tag=("CONTEXT", 3, None))),
+                                            Member("yard", T("BOOLEAN", tag=("CONTEXT", 1, None))),
+                                            Member("xray", T("INTEGER", tag=("CONTEXT", 2, None)))])))
+    os_.append(("O23", T("SEQUENCE", members=[Member("c", T("REF", ref="O22")), Member("n", T("REF", ref="O0")),
+                                              Member("d", T("INTEGER"), has_default=True, default=7, default_text="7")])))
+    os_.append(("O24", T("SEQOF", elem=T("REF", ref="O0"))))
+    mods.append(Module("CatOpt", "EXPLICIT", os_))
     mods.append(Module("CatChoiceI", "IMPLICIT", [(n + "i", _retarget(t)) for n, t in ts]))
     return mods
 
